@@ -515,6 +515,16 @@ def jobs_C08(rng, tier):
             if nm != "roc" and not gen.needs_positive(e):
                 zs = [(-0.0 if (x == 0 and rng.random() < 0.6) else x) for x in gen.stream(rng, rng.choice(["zeros", "zeros", "ties"]), 3 * n + 10, n)]
                 js.append(Relation("ready", e, [zs], dict(ps), mode="f"))
+    # Alma with narrow custom kernels (large sigma, small windows): either the constructor rejects the kernel (its weights
+    # underflow to zero in the scalar type) or every reported value is finite — never 0/0 (defect D18, found by the f32 twins of
+    # the thorough tier: `Alma::new_custom(_, 1, 40.0, 0.875)` reported NaN at f64, sigma = 12 sufficed at f32)
+    for n in (1, 2, 3, 5, 10):
+        for sg in (12, 24, 40, 64, 128):
+            e = mk("almac", ECHO, [n, F(sg), F(rng.choice([1, 4, 6, 7]), 8)])
+            xs = gen.stream(rng, rng.choice(["ints", "dyadic8", "rampup"]), 2 * n + 6, n)
+            for mode in ("f", "s"):
+                js.append(Relation("ready", e, [xs], dict(ctor_may_reject=True), mode=mode))
+            js.append(Corr(e, "f", xs_ops("f", xs), "f64", both_builds=True, n=n))   # model and implementation agree on the rejection
     for _ in range(R * 2):
         js.append(Relation("ready", ("tanh", ECHO), [gen.gen_stream(rng, 8)[1]], dict(first=1)))
         n = rng.randint(3, 6)
@@ -992,6 +1002,13 @@ def jobs_C15(rng, tier):
                         js.append(Corr(e, "f", ops_for(xs), "pattern", both_builds=True))
                     if rng.random() < 0.35 and all(abs(x) < 4096 and x.denominator <= 1024 for x in xs):
                         js.append(NoPanic(e, "s", ops_for(xs)))   # the f32 instance, on values that are exact in f32
+    # narrow Alma kernels: rejected by the constructor or panic-free (defect D18), on both builds, agreeing with the model
+    for n in (1, 2, 3, 5, 10):
+        for sg in (12, 40, 64, 128):
+            e = mk("almac", ECHO, [n, F(sg), F(rng.choice([1, 4, 6, 7]), 8)])
+            xs = gen.stream(rng, rng.choice(["ints", "dyadic8", "rampup"]), 2 * n + 6, n)
+            js.append(Corr(e, "f", ops_for(xs), "pattern", both_builds=True))
+            js.append(NoPanic(e, "s", ops_for(xs)))
     # two-level chains
     for _ in range(scale_n(tier, 150, 1500)):
         e = gen.gen_tree(rng, 2, False)
@@ -1636,6 +1653,8 @@ class TypeTwin(Job):
         return [Case("f", gen.render(self.e, "f"), xs_ops("f", self.xs)), Case("s", gen.render(self.e, "s"), xs_ops("s", self.xs))]
 
     def decide(self, impl, rel, model):
+        if rel[1][:1] == ["P assert"] and rel[0][:1] != ["P assert"] and self.e[0] in ("alma", "almac"):
+            return None   # Alma's constructor rejects a kernel whose weights underflow in f32 but not in f64: nothing to compare
         a, b = outputs("f", rel[0]), outputs("f", rel[1])
         for t, (u, v) in enumerate(zip(a, b)):
             if isinstance(u, tuple) or isinstance(v, tuple):
